@@ -2,6 +2,226 @@
    properties); this file is the flat-encoding entry point used by the correspondence run. *)
 From ASV Require Export Loc.
 
+(* ====================================================================================
+   Decidable set-of-bases specifications.  They are evaluated on the IMPLEMENTATION's output
+   (function id + 100, payload = input ++ implementation output) and are independent of how the
+   code computes its answer: membership of a base in a location (in_loc) is the only primitive.
+   Verdict: [1] satisfied, [0; clause] violated, [2] precondition of the clause not met.
+   Soundness lemmas (boolean -> Prop) are in Proofs.v.
+   ==================================================================================== *)
+Fixpoint zrange_n (a : Z) (n : nat) : list Z :=
+  match n with O => [] | S m => a :: zrange_n (a + 1) m end.
+(* the integers a, a+1, ..., a+n-1 *)
+Definition zrange (a n : Z) : list Z := zrange_n a (Z.to_nat n).
+
+Definition wf_partb (N : Z) (p : part) : bool := (0 <=? ps p) && (ps p <? pe p) && (pe p <=? N).
+Definition wf_locb (N : Z) (l : loc) : bool := nonempty l && forallb (wf_partb N) l.
+Definition proper_partb (p : part) : bool := ps p <? pe p.
+Definition proper_locb (l : loc) : bool := nonempty l && forallb proper_partb l.
+Fixpoint disjoint_parts (l : list part) : bool :=
+  match l with
+  | [] => true
+  | p :: r => forallb (fun q => (pe p <=? ps q) || (pe q <=? ps p)) r && disjoint_parts r
+  end.
+Definition uniform_strand (l : loc) : bool :=
+  match l with [] => true | p :: r => forallb (fun q => pst q =? pst p) r end.
+
+(* two locations share a base *)
+Definition share_base (a b : loc) : bool :=
+  existsb (fun x => in_loc x a && in_loc x b) (zrange (lstart a) (lend a - lstart a)).
+
+Definition ok_overlap (a b : loc) (out : bool) : bool := Bool.eqb out (share_base a b).
+
+(* every part of the inner lies inside one part of the outer *)
+Definition partwise_inside (o i : loc) : bool :=
+  forallb (fun ip => existsb (fun op => (ps op <=? ps ip) && (pe ip <=? pe op)) o) i.
+Definition ok_contains (o i : loc) (out : bool) : bool := Bool.eqb out (partwise_inside o i).
+
+(* number of bases strictly between two disjoint intervals: on a line, and the other way round *)
+Definition gap (a b : part) : Z := if pe a <=? ps b then ps b - pe a else ps a - pe b.
+Definition wrap_gap (N : Z) (a b : part) : Z :=
+  if pe a <=? ps b then ps a + N - pe b else ps b + N - pe a.
+Definition between_ring (N : Z) (p q : part) : Z := Z.min (wrap_gap N p q) (gap p q).
+Definition between (w : option Z) (p q : part) : Z :=
+  match w with Some N => if N =? 0 then gap p q else between_ring N p q | None => gap p q end.
+Definition expected_dist (a b : loc) (w : option Z) : Z :=
+  if share_base a b then 0 else lmin (flat_map (fun p => map (fun q => between w p q) b) a).
+Definition pre_dist (a b : loc) (w : option Z) : bool :=
+  match w with
+  | Some N => if N =? 0 then proper_locb a && proper_locb b else wf_locb N a && wf_locb N b
+  | None => proper_locb a && proper_locb b
+  end.
+Definition ok_dist (a b : loc) (w : option Z) (out : Z) : bool := out =? expected_dist a b w.
+
+(* ---- connect ---- *)
+Definition all_parts (locs : list loc) : list part := concat locs.
+(* a span on a ring of length N: one part, or [s,N) then [0,e) with e <= s *)
+Definition is_spanb (N : Z) (r : loc) : bool :=
+  match r with
+  | [p] => wf_partb N p
+  | [p; q] => wf_partb N p && wf_partb N q && (pe p =? N) && (ps q =? 0) && (pe q <=? ps p)
+  | _ => false
+  end.
+(* an input that is itself a span, its two parts in transcription order *)
+Definition is_span_input (N : Z) (l : loc) : bool :=
+  match l with
+  | [p; q] => uniform_strand l && (if pst p =? -1 then is_spanb N [q; p] else is_spanb N [p; q])
+  | _ => is_spanb N l
+  end.
+Definition covers_part (r : loc) (p : part) : bool :=
+  forallb (fun x => in_loc x r) (zrange (ps p) (pe p - ps p)).
+Definition covers_all (r : loc) (locs : list loc) : bool := forallb (covers_part r) (all_parts locs).
+(* base x lies on the arc of the given length starting at s *)
+Definition on_arc (N s len x : Z) : bool := (x - s) mod N <? len.
+Definition input_bases (N : Z) (locs : list loc) : list Z :=
+  filter (fun x => existsb (in_loc x) locs) (zrange 0 N).
+(* no arc shorter than the result and shorter than half the record covers every input base *)
+Definition no_shorter_arc (N : Z) (r : loc) (locs : list loc) : bool :=
+  let L := Z.min (llen r - 1) ((N - 1) / 2) in
+  if L <? 1 then true else
+  let U := input_bases N locs in
+  forallb (fun s => negb (forallb (on_arc N s L) U)) (zrange 0 N).
+Definition shortest_bound := 400.
+
+(* 0 = satisfied, otherwise the number of the violated clause *)
+Definition check_connect_line (locs : list loc) (out : res loc) : Z :=
+  match out with
+  | Err _ => if existsb bridges locs then -1 else 1
+  | Ok [h] =>
+    if negb (ps h <? pe h) then 2
+    else if negb (ps h =? lmin (map ps (all_parts locs))) then 3
+    else if negb (pe h =? lmax (map pe (all_parts locs))) then 3
+    else 0
+  | Ok _ => 2
+  end.
+Definition check_connect_ring (N : Z) (locs : list loc) (out : res loc) : Z :=
+  match out with
+  | Err _ => if forallb (is_span_input N) locs then 1 else -1
+  | Ok r =>
+    if negb (is_spanb N r) then 2
+    else if negb (covers_all r locs) then 4
+    else if negb (existsb bridges locs) &&
+            negb (llen r <=? lmax (map pe (all_parts locs)) - lmin (map ps (all_parts locs))) then 5
+    else if forallb (is_span_input N) locs && (N <=? shortest_bound) && negb (no_shorter_arc N r locs) then 6
+    else 0
+  end.
+Definition pre_connect (locs : list loc) (w : option Z) : bool :=
+  nonempty locs &&
+  match w with
+  | Some N => (0 <? N) && forallb (wf_locb N) locs
+  | None => forallb proper_locb locs
+  end.
+Definition check_connect (locs : list loc) (w : option Z) (out : res loc) : Z :=
+  match w with Some N => check_connect_ring N locs out | None => check_connect_line locs out end.
+
+(* ---- offset ---- *)
+Definition same_strands (r a : loc) : bool :=
+  match a with [] => true | p :: _ => forallb (fun q => pst q =? pst p) r end.
+Definition rotated_bases (N off : Z) (r a : loc) : bool :=
+  forallb (fun x => Bool.eqb (in_loc ((x + off) mod N) r) (in_loc x a)) (zrange 0 N).
+Definition check_offset_ring (N : Z) (a : loc) (off : Z) (out : res loc) : Z :=
+  match out with
+  | Err _ => 1
+  | Ok r =>
+    if negb (wf_locb N r) then 2
+    else if negb (disjoint_parts r) then 3
+    else if negb (llen r =? llen a) then 4
+    else if negb (same_strands r a) then 5
+    else if negb (rotated_bases N off r a) then 6
+    else 0
+  end.
+Definition check_offset_line (a : loc) (off : Z) (out : res loc) : Z :=
+  match out with
+  | Err _ => if lstart a + off <? 0 then -1 else 1
+  | Ok r => if loc_eqb r (map (fun p => mkPart (ps p + off) (pe p + off) (pst p)) a) then 0 else 6
+  end.
+Definition pre_offset (a : loc) (w : option Z) : bool :=
+  disjoint_parts a && uniform_strand a &&
+  match w with Some N => (0 <? N) && wf_locb N a | None => proper_locb a && (0 <=? lstart a) end.
+Definition check_offset (a : loc) (off : Z) (w : option Z) (out : res loc) : Z :=
+  match w with Some N => check_offset_ring N a off out | None => check_offset_line a off out end.
+
+(* ---- extend ---- *)
+(* the two ends in transcription order *)
+Definition start_pt (a : loc) : Z :=
+  match (if lstrand a =? -1 then rev a else a) with p :: _ => ps p | [] => 0 end.
+Definition end_pt (a : loc) : Z :=
+  match last_opt (if lstrand a =? -1 then rev a else a) with Some p => pe p | None => 0 end.
+Definition within_line (a : loc) (d x : Z) : bool :=
+  ((start_pt a - d <=? x) && (x <? start_pt a)) || ((end_pt a <=? x) && (x <? end_pt a + d)).
+Definition within_ring (N : Z) (a : loc) (d x : Z) : bool :=
+  existsb (fun k => within_line a d (x + k * N)) [-2; -1; 0; 1; 2].
+Definition extended_bases (N : Z) (circ : bool) (a : loc) (d : Z) (r : loc) : bool :=
+  forallb (fun x => Bool.eqb (in_loc x r)
+                      (in_loc x a || (if circ then within_ring N a d x else within_line a d x)))
+          (zrange 0 N).
+Definition check_extend (a : loc) (d N : Z) (circ : bool) (out : res loc) : Z :=
+  match out with
+  | Err _ => 1
+  | Ok r =>
+    if negb (wf_locb N r) then 2
+    else if negb (extended_bases N circ a d r) then 6
+    else if negb (disjoint_parts r) then 3
+    else 0
+  end.
+(* exon order is a possible transcription order: not running over the origin at all, or (on a
+   ring) splitting into one ordered run before and one after it *)
+Definition well_ordered (circ : bool) (a : loc) : bool :=
+  if bridges a then circ && match split_bridging a with Ok _ => true | Err _ => false end else true.
+Definition pre_extend (a : loc) (d N : Z) (circ : bool) : bool :=
+  (0 <? N) && wf_locb N a && disjoint_parts a && uniform_strand a && well_ordered circ a &&
+  (0 <=? d) && (d <=? N + 1).
+
+(* recorded finding classes of Record.extend_location on a circular record with a multi-part input:
+   1 (extend_near_full) = the input itself runs over the origin and the two extensions reach each
+       other round the ring (span + 2*distance > N): result parts may overlap;
+   2 (extend_lower_lost) = the input does not run over the origin and both ends pass the record
+       edges and meet (the code's first branch): the lower extension may be dropped *)
+Definition extend_full_wrap (a : loc) (d N : Z) (circ : bool) : bool :=
+  circ && (start_pt a - d <? 0) && (start_pt a - d + N <=? end_pt a + d).
+Definition extend_class (a : loc) (d N : Z) (circ : bool) : Z :=
+  if negb (circ && is_compound a) then 0
+  else if end_pt a <=? start_pt a
+       then (if N <? end_pt a - start_pt a + N + 2 * d then 1 else 0)
+       else (if extend_full_wrap a d N circ then 2 else 0).
+
+Definition verdict (pre : bool) (clause : Z) : list Z :=
+  if negb pre then [2] else if clause =? 0 then [1] else if clause <? 0 then [2] else [0; clause].
+Definition verdict_b (pre ok : bool) : list Z := verdict pre (if ok then 0 else 1).
+
+(* implementation outputs: a bare value, or [-1; kind] for an exception (total functions);
+   0 :: value or [1; kind] (functions that may raise) *)
+Definition dResLoc (l : list Z) : option (res loc) :=
+  match l with
+  | 0 :: r => match dLoc r with Some (x, []) => Some (Ok x) | _ => None end
+  | [1; k] => Some (Err k)
+  | _ => None
+  end.
+
+(* ---------- Feature.__lt__ / CDSCollection.__lt__ against a location ---------- *)
+(* get_comparator: (start, len) resp. (start, -len); for an origin-spanning location the start is
+   min(start) - max(end) of the part before the origin (negative) *)
+Definition cmp_key (len_sign : Z) (l : loc) : res (Z * Z) :=
+  if bridges l then
+    do lu <- split_bridging l;
+    let '(_, head) := lu in
+    Ok (lmin (map ps head) - lmax (map pe head), len_sign * llen l)
+  else Ok (lstart l, len_sign * llen l).
+Definition pair_lt (a b : Z * Z) : bool :=
+  (fst a <? fst b) || ((fst a =? fst b) && (snd a <? snd b)).
+Definition pair_eqb (a b : Z * Z) : bool := (fst a =? fst b) && (snd a =? snd b).
+(* is_source: the feature on the left is of type "source" *)
+Definition feature_lt (is_source : bool) (a b : loc) : res bool :=
+  do ka <- cmp_key 1 a;
+  do kb <- cmp_key 1 b;
+  if pair_eqb ka kb && is_source then Ok true else Ok (pair_lt ka kb).
+Definition collection_lt (a b : loc) : res bool :=
+  if contains a b && negb (contains b a) then Ok true else
+  do ka <- cmp_key (-1) a;
+  do kb <- cmp_key (-1) b;
+  Ok (pair_lt ka kb).
+Definition eResBool (r : res bool) : list Z := eRes eBool r.
+
 Definition dWrap : dec (option Z) := dOpt dZ.
 
 Definition run_C04 (fn : Z) (l : list Z) : list Z :=
@@ -24,5 +244,43 @@ Definition run_C04 (fn : Z) (l : list Z) : list Z :=
   | 10 => match dLoc l with Some (a, []) => eLoc (remove_redundant_exons a) | _ => bad_input end
   | 11 => match dPair (dPair dLoc dZ) dBool l with
           | Some ((a, s, u), []) => eRes eLoc (frameshift a s u) | _ => bad_input end
+  | 12 => match dPair (dPair dLoc dLoc) dBool l with
+          | Some ((a, b, src), []) => eResBool (feature_lt src a b) | _ => bad_input end
+  | 13 => match dPair dLoc dLoc l with
+          | Some ((a, b), []) => eResBool (collection_lt a b) | _ => bad_input end
+  (* ---- specifications evaluated on the implementation's output ---- *)
+  | 101 => match dPair dLoc dLoc l with
+           | Some ((a, b), [o]) => verdict_b true (ok_overlap a b (negb (o =? 0)))
+           | Some ((a, b), [-1; _]) => [0; 1]
+           | _ => bad_input end
+  | 102 => match dPair dLoc dLoc l with
+           | Some ((a, b), [o]) => verdict_b true (ok_contains a b (negb (o =? 0)))
+           | Some ((a, b), [-1; _]) => [0; 1]
+           | _ => bad_input end
+  | 103 => match dPair (dPair dLoc dLoc) dWrap l with
+           | Some ((a, b, w), [o]) => verdict_b (pre_dist a b w) (ok_dist a b w o)
+           | Some ((a, b, w), [-1; _]) => verdict_b (pre_dist a b w) false
+           | _ => bad_input end
+  | 106 => match dPair (dList dLoc) dWrap l with
+           | Some ((locs, w), o) =>
+             match dResLoc o with
+             | Some out => verdict (pre_connect locs w) (check_connect locs w out)
+             | None => bad_input end
+           | _ => bad_input end
+  | 107 => match dPair (dPair dLoc dZ) dWrap l with
+           | Some ((a, off, w), o) =>
+             match dResLoc o with
+             | Some out => verdict (pre_offset a w) (check_offset a off w out)
+             | None => bad_input end
+           | _ => bad_input end
+  | 108 => match dPair (dPair dLoc dZ) (dPair dZ dBool) l with
+           | Some ((a, d, (m, c)), o) =>
+             match dResLoc o with
+             | Some out => verdict (pre_extend a d m c) (check_extend a d m c out)
+             | None => bad_input end
+           | _ => bad_input end
+  | 208 => match dPair (dPair dLoc dZ) (dPair dZ dBool) l with
+           | Some ((a, d, (m, c)), _) => [extend_class a d m c]
+           | _ => bad_input end
   | _ => bad_input
   end.
